@@ -188,3 +188,53 @@ func H_C02_values_dict_and_more() {
 	panicked := verifPanics(func() { err = f.Render(out) })
 	verifAssertKnown(!panicked && err != nil, "Values with a Dict next to other items is reported as an error, not a panic", panicked, "C02-values-dict-panics")
 }
+
+// a File rendered (formatted), then given another setting, then rendered again: the second
+// output is gofmt of the second raw rendering (nothing of the first render may be reused blindly)
+func H_C02_rerender_after_setting() {
+	build := func(noFormat bool, withChange bool) *File {
+		f := NewFile("p")
+		f.NoFormat = noFormat
+		f.Add(Var().Id("x").Op("=").Lit(1))
+		if withChange {
+			c02Change(f)
+		}
+		return f
+	}
+	raw1, raw2 := &bytes.Buffer{}, &bytes.Buffer{}
+	verifAssert(build(true, false).Render(raw1) == nil, "raw render")
+	verifAssert(build(true, true).Render(raw2) == nil, "raw render")
+	f := build(false, false)
+	out1 := &bytes.Buffer{}
+	err1 := f.Render(out1)
+	c02Change(f)
+	out2 := &bytes.Buffer{}
+	err2 := f.Render(out2)
+	if err1 != nil || !specGofmtOK(raw2.String()) {
+		return
+	}
+	verifAssert(err2 == nil, "the second render succeeds when its raw rendering is valid Go")
+	if err2 == nil {
+		verifObserve("second", out2.String())
+		verifAssert(out2.String() == specGofmt(raw2.String()), "the second formatted render is gofmt of the second raw rendering")
+	}
+}
+
+func c02Change(f *File) {
+	switch nondetChoice("change", 5) {
+	case 0:
+		f.Anon("z" + nondetString("anonpath"))
+	case 1:
+		c := nondetString("pkgcomment")
+		verifAssume(!verifHasPrefix(c, "/") && !verifContainsNewline(c))
+		f.PackageComment(c)
+	case 2:
+		c := nondetString("header")
+		verifAssume(!verifHasPrefix(c, "/") && !verifContainsNewline(c))
+		f.HeaderComment(c)
+	case 3:
+		f.CanonicalPath = nondetString("canonical")
+	case 4:
+		f.CgoPreamble("#include <stdio.h>")
+	}
+}
